@@ -1422,6 +1422,12 @@ Hwrite(int32 access_id, int32 length, const void *data)
             goto done; /* we're finished, wrap things up */
         }              /* end if */
 
+        /* the element grows in place at the end of the file: like every
+           block handed out there it may not end beyond what a signed 32-bit
+           offset can express */
+        if (length > (int32)0x7fffffff - data_off - access_rec->posn)
+            HGOTO_ERROR(DFE_BADLEN, FAIL);
+
         /* Update the DD with the new length. Note argument of '-2' for
            the offset parameter means not to change the offset in the DD. */
         if (HTPupdate(access_rec->ddid, -2, access_rec->posn + length) == FAIL)
